@@ -260,6 +260,15 @@ func checkR(c RCase, r *vf.R) error {
 		}
 	}
 	tolSVG := 6*rel*mabs + 8*rel*rmax*10 + 1e-12
+	// a short chord fixes the direction in which the centre lies only as well as its end points are printed: moving an
+	// end point by d turns the chord by d/chord and moves the centre of an arc of radius r by about r d/chord
+	for _, sg := range segs {
+		if sg.Cmd == oracle.ArcTo {
+			if ch := sg.P0.Dist(sg.End()); ch > 0 && ch < 2*sg.Args[0] {
+				tolSVG += 6 * rel * mabs * sg.Args[0] / ch
+			}
+		}
+	}
 	// an arc whose end points are closer than the printed resolution is a full ellipse or nothing depending on how the
 	// two points round (SVG: identical end points omit the segment): its meaning is not stable under printing
 	for _, sg := range segs {
@@ -510,6 +519,10 @@ func checkP(c PCase, r *vf.R) error {
 			if r.Excluded("F11c", emptyClosed.MatchString(c.S) || emptyClosedSubpath(ref)) {
 				return nil
 			}
+			// F11d: numbers written with 20 and more digits are misread by the number parser of the dependency
+			if r.Excluded("F11d", longMantissa(c.S)) {
+				return nil
+			}
 			return vf.Errorf("%v", err)
 		}
 	}
@@ -518,10 +531,39 @@ func checkP(c PCase, r *vf.R) error {
 
 var (
 	bigExp = regexp.MustCompile(`[eE][+-]?[0-9]{3,}`)
+	// known finding F11d: a mantissa of 20 or more digits (beyond uint64) is misread: 18446744073709551616 as 0, 10^42
+	// written out as 10^43 (strconv.ParseFloat of github.com/tdewolff/parse/v2, a dependency)
+	// (class: a number whose mantissa, without leading zeros and the decimal point, has 20 or more digits)
 	// known finding F11c: "M x y Z" followed by a drawing command: the MoveTo of the empty subpath is removed
 	// and the next command starts at the origin instead of (x,y) (behaviour of Close pinned by TestPathCommands)
 	emptyClosed = regexp.MustCompile(`[Mm][^A-DF-Za-df-z]*[Zz][\s,]*[^Mm\s,]`)
 )
+
+// longMantissa reports whether s contains a number written with 20 or more significant digits.
+func longMantissa(s string) bool {
+	n, dot, lead := 0, false, true
+	for i := 0; i < len(s); i++ {
+		c := s[i]
+		switch {
+		case c >= '0' && c <= '9':
+			if c != '0' || !lead {
+				lead = false
+				n++
+				if n >= 20 {
+					return true
+				}
+			}
+		case c == '.' && !dot:
+			dot = true
+		default:
+			n, dot, lead = 0, false, true
+			if c == '.' {
+				dot = true
+			}
+		}
+	}
+	return false
+}
 
 // emptyClosedSubpath: a closepath on a subpath that draws nothing, followed by more path data.
 func emptyClosedSubpath(ref []oracle.Seg) bool {
